@@ -122,6 +122,24 @@ fn extra_cases(thorough: bool) -> Vec<(String, rosu_pp::Beatmap)> {
             }
         }
     }
+    // maps that open with 3 or 4 rhythm groups of 5 notes each, spacings from {125, 250, 260, 500} ms (260 lies within the
+    // 10 % that "the same interval" tolerates): what the rhythm skill remembers about earlier groups, taiko and osu!
+    for mode in [1u8, 0] {
+        let spacings = [125u32, 250, 260, 500];
+        for groups in [3u32, 4] {
+            for code in 0..4u32.pow(groups) {
+                let mut objs = Vec::new();
+                for g in 0..groups {
+                    let sp = spacings[((code / 4u32.pow(g)) % 4) as usize];
+                    for i in 0..5u32 {
+                        objs.push(vh::gen::Obj { kind: Kind::Circle, gap: if g == 0 && i == 0 { 0 } else { sp }, pos: PosK::Far, sound: if (g + i) % 3 == 0 { 8 } else { 0 }, col: 0 });
+                    }
+                }
+                let spec = MapSpec::new(mode, objs);
+                v.push((format!("{groups} rhythm groups of 5 notes, spacings code {code}, mode {mode}"), spec.decode()));
+            }
+        }
+    }
     // silences longer than 2^14 (and 2^15) strain sections between two bursts: run-length limits of a strain list
     for mode in 0..4u8 {
         for silence in [7_000_000u32, 14_000_000] {
@@ -189,7 +207,7 @@ fn main() {
     }
 
     let ctx = Ctx::from_env("C10");
-    ctx.rule("case = grammar map (dense universe: N<=2/3 objects, gaps {0,150,1000}; long-gap universe: N<=3/4 objects, gaps {150, 7 s, 700 s} so that strains decay through the subnormal range to exact zero, first object before time zero; extra cases: the fixtures and windows of them, rhythm and 3-object motif universes, two bursts separated by a silence of 7*10^6 / 1.4*10^7 ms = more than 2^14 / 2^15 strain sections, and by 10^8 / 5*10^8 ms = more than one / five days); per case the whole battery (bpm, check_suspicion verdict, difficulty, full strain vectors, gradual walks, performance, conversions to every reachable mode, 3 settings + key mods) is digested by four builds of this checker that differ only in rosu-pp's cargo features; oracle = the four digests are equal for every case; non-trivial = every case (each compares four independent executions)");
+    ctx.rule("case = grammar map (dense universe: N<=2/3 objects, gaps {0,150,1000}; long-gap universe: N<=3/4 objects, gaps {150, 7 s, 700 s} so that strains decay through the subnormal range to exact zero, first object before time zero; extra cases: the fixtures and windows of them, rhythm and 3-object motif universes, every opening of 3 / 4 rhythm groups of 5 notes over 4 spacings, two bursts separated by a silence of 7*10^6 / 1.4*10^7 ms = more than 2^14 / 2^15 strain sections, and by 10^8 / 5*10^8 ms = more than one / five days); per case the whole battery (bpm, check_suspicion verdict, difficulty, full strain vectors, gradual walks, performance, conversions to every reachable mode, 3 settings + key mods) is digested by four builds of this checker that differ only in rosu-pp's cargo features; oracle = the four digests are equal for every case; non-trivial = every case (each compares four independent executions)");
     ctx.assume("the four binaries are built from the same working tree by bin/pre_c10 (target/feat-*/release/c10)");
 
     let root = PathBuf::from(std::env::var("VERIF_ROOT").unwrap_or_else(|_| "/verif".into()));
